@@ -187,7 +187,11 @@ pub fn metadata_sweep(rep: &mut Report, thorough: bool) {
 
 /// Melding from a source whose stored items were damaged in place after the source had loaded them: whatever
 /// the target writes must still be named by the sha256 of its bytes (the damaged item is skipped, not copied).
-pub struct DamagedSourceProbe;
+#[derive(Default)]
+pub struct DamagedSourceProbe {
+    /// (block, wrong index) pairs already tried (the same block occurs in many states)
+    pub seen_rename: std::sync::Mutex<std::collections::HashSet<String>>,
+}
 
 pub fn damage_variants(v: &[u8]) -> Vec<(&'static str, Vec<u8>)> {
     let mut out = vec![("truncated-half", v[..v.len() / 2].to_vec()), ("empty", vec![])];
@@ -247,6 +251,38 @@ impl Probe for DamagedSourceProbe {
                 }
             }
         }
+        // a source opened on storage where one block (valid bytes, right digest) sits under a WRONG index - a foreign
+        // or renamed file: whatever that source accepts, a meld from it into an empty replica writes only well-named items
+        for s in 0..n {
+            let blocks: Vec<String> = stores[s].keys().filter(|k| k.ends_with(".delta")).cloned().collect();
+            for k in blocks {
+                let name = k.strip_suffix(".delta").unwrap();
+                let Some((idx, digest)) = refmodel::parse_block_name(name) else { continue };
+                for wrong in [idx + 5, idx.saturating_sub(1).max(1)] {
+                    if wrong == idx {
+                        continue;
+                    }
+                    if !self.seen_rename.lock().unwrap().insert(format!("{}>{}", k, wrong)) {
+                        continue;
+                    }
+                    let mut st = stores[s].clone();
+                    let bytes = st.remove(&k).unwrap();
+                    st.insert(format!("{}-{}.delta", wrong, digest), bytes);
+                    let Ok((src, _)) = fresh_on(&st, "C11 misnamed block source") else { continue };
+                    let empty = RawStore::new();
+                    let Ok((dst, dst_store)) = fresh_on(&empty, "C11 misnamed block target") else { continue };
+                    let o = crate::guard::call("meld", || dst.meld(&src).map_err(|e| e.to_string()));
+                    cx.count("melds_from_a_source_with_a_misnamed_block");
+                    for (k2, v2) in &dst_store.snapshot() {
+                        if let Some(e) = check_item(k2, v2) {
+                            cx.violation("C11", "C11:meld-copied-a-misnamed-block", sc, hist,
+                                json!({"source_replica": s, "block": k, "renamed_to_index": wrong, "error": e, "meld": format!("{:?}", o)}));
+                            return;
+                        }
+                    }
+                }
+            }
+        }
     }
 }
 
@@ -292,7 +328,7 @@ pub fn run(thorough: bool) {
     });
     run_h(&mut rep, RunCfg {
         scenarios: damaged_source_scenarios(thorough),
-        probes: vec![Arc::new(DamagedSourceProbe)],
+        probes: vec![Arc::new(DamagedSourceProbe::default())],
         pools: vec![1],
         time_budget_s: if thorough { 1200 } else { 30 },
         max_states: if thorough { 100_000 } else { 20_000 },
